@@ -633,3 +633,279 @@ Proof.
     + exact (csteps_label ois ts st p r1 d1 ts1 st1 E1 Hp Hg1).
     + exact (IH ts1 st1 r2 d2 ts2 st2 E2 Ht Hg2).
 Qed.
+
+(* ---- a whole cell: the CELL record carries a reference number no earlier CELL record has (c7) *)
+Definition wcell_oks (c : wcell) : Prop :=
+  Forall wpoly_oks (cl_polys c) /\ Forall wpath_oks (cl_paths c) /\ Forall wref_oks (cl_refs c) /\ Forall wlabel_oks (cl_labels c).
+Definition fresh_num (gc : cell) (cells : list cell) : Prop :=
+  forall i, c_name gc = NNum i -> existsb (cell_has_num i) cells = false.
+
+Lemma csteps_cell ois cells ts st c recs gc ts' st' : cell_to_oas cells ts st c = (recs, gc, ts', st') ->
+  wcell_oks c -> wf_gcell gc -> forall m k, m_abs m = true -> fresh_num gc (k_cells k) ->
+  exists m' tg', csteps ois m k recs m' (k_set_cells k (rcell_g gc :: k_cells k) tg') /\ m_abs m' = true.
+Proof.
+  unfold cell_to_oas. intros E (Hp & Hh & Hr & Hl) ((i & Hn & Hi) & _ & Hg) m k Ha Hfresh.
+  destruct (polygons_to_oas st (cl_polys c)) as [[r1 d1] st1] eqn:E1.
+  destruct (flexpaths_to_oas st1 (cl_paths c)) as [[r2 d2] st2] eqn:E2.
+  destruct (references_to_oas cells st2 (cl_refs c)) as [[r3 d3] st3] eqn:E3.
+  destruct (labels_to_oas ts st3 (cl_labels c)) as [[[r4 d4] ts4] st4] eqn:E4.
+  injection E as <- <- <- <-. cbn [c_name c_elems] in *. specialize (Hfresh i Hn). injection Hn as Hn.
+  apply Forall_app in Hg. destruct Hg as [G1 Hg]. apply Forall_app in Hg. destruct Hg as [G2 Hg].
+  apply Forall_app in Hg. destruct Hg as [G3 G4].
+  pose proof (celem_steps_app ois _ _ _ _ (csteps_polygons ois _ _ _ _ _ E1 Hp G1)
+               (celem_steps_app ois _ _ _ _ (csteps_flexpaths ois _ _ _ _ _ E2 Hh G2)
+                  (celem_steps_app ois _ _ _ _ (csteps_references ois cells _ _ _ _ _ E3 Hr G3)
+                     (csteps_labels ois _ _ _ _ _ _ _ E4 Hl G4)))) as Hall.
+  set (c0 := mkCell (NNum i) [] []).
+  destruct (Hall modal0 (k_set_cells k (c0 :: k_cells k) T_cell) c0 (k_cells k) eq_refl eq_refl) as (m' & S & A').
+  exists m'. exists (match d1 ++ d2 ++ d3 ++ d4 with [] => T_cell | _ => T_elem end). split; [|exact A'].
+  apply (csteps_cons ois m k _ modal0 (k_set_cells k (c0 :: k_cells k) T_cell)); [discriminate| |].
+  - intros rest. unfold cov_record. change OasisRecord_CELL_REF_NUM with 13. cbn [app rd_byte obnd].
+    rewrite Hn. rewrite rd_uint_enc by exact Hi. cbn [obnd]. unfold modal_at_cell. cbn [DS d_cells].
+    rewrite Hfresh. destruct k; reflexivity.
+  - unfold after_elems in S. unfold rcell_g. cbn [c_name c_props c_elems].
+    destruct (d1 ++ d2 ++ d3 ++ d4) as [|e0 et] eqn:Ed.
+    + cbn [map rev]. subst c0. rewrite Hn in *. exact S.
+    + rewrite push_eps_shape in S. subst c0. cbn [c_name c_props c_elems] in S. rewrite app_nil_r in S.
+      rewrite Hn in *. destruct k; exact S.
+Qed.
+
+Lemma csteps_cells ois cells : forall l pos ts st recs gcs offs ts' st',
+  cells_to_oas cells pos ts st l = (recs, gcs, offs, ts', st') ->
+  Forall wcell_oks l -> Forall wf_gcell gcs -> NoDup (map c_name gcs) ->
+  forall m k, m_abs m = true -> (forall gc, In gc gcs -> fresh_num gc (k_cells k)) ->
+  exists m' tg', csteps ois m k recs m' (k_set_cells k (rev (map rcell_g gcs) ++ k_cells k) tg') /\ m_abs m' = true.
+Proof.
+  induction l as [|c t IH]; intros pos ts st recs gcs offs ts' st' E Hok Hg Hnd m k Ha Hfr.
+  - injection E as <- <- <- <- <-. exists m, (k_target k). split; [|exact Ha]. destruct k; constructor.
+  - cbn [cells_to_oas] in E.
+    destruct (cell_to_oas cells ts st c) as [[[r1 d1] ts1] st1] eqn:E1.
+    destruct (cells_to_oas cells (pos + reclen r1) ts1 st1 t) as [[[[r2 d2] o2] ts2] st2] eqn:E2.
+    injection E as <- <- <- <- <-. inversion Hok as [|? ? Hc Ht]; subst. inversion Hg as [|? ? Hg1 Hg2]; subst.
+    cbn [map] in Hnd. inversion Hnd as [|? ? Hnin Hnd2]; subst.
+    destruct (csteps_cell ois cells ts st c r1 d1 ts1 st1 E1 Hc Hg1 m k Ha (Hfr d1 (or_introl eq_refl))) as (m1 & tg1 & S1 & A1).
+    destruct (IH _ _ _ _ _ _ _ _ E2 Ht Hg2 Hnd2 m1 (k_set_cells k (rcell_g d1 :: k_cells k) tg1) A1) as (m2 & tg2 & S2 & A2).
+    + intros gc Hin i Hi. cbn [k_set_cells k_cells existsb]. rewrite (Hfr gc (or_intror Hin) i Hi), orb_false_r.
+      unfold cell_has_num, rcell_g. cbn [c_name]. destruct (c_name d1) as [s|j] eqn:Ej; [reflexivity|].
+      apply N.eqb_neq. intros ->. apply Hnin. rewrite <- Hi. apply in_map. exact Hin.
+    + exists m2, tg2. split; [|exact A2]. eapply csteps_app; [exact S1|].
+      cbn [map rev]. rewrite <- app_assoc. cbn [app]. destruct k; exact S2.
+Qed.
+
+(* ================================================================== name records *)
+Lemma cstep_cellname ois m k s : wf_str s -> (md0 (k_md k) = 0 \/ md0 (k_md k) = 1) -> lookup (k_cn k) (k_cnn k) = None ->
+  csteps ois m k [OasisRecord_CELLNAME_IMPLICIT :: wr_cstring s] m (k_add_cn k s).
+Proof.
+  intros Hs Hmd Hl. apply csteps_one; [discriminate|]. intros rest.
+  unfold cov_record. change OasisRecord_CELLNAME_IMPLICIT with 3. cbn [app rd_byte obnd].
+  unfold cov_add_name, add_name. change (wr_cstring s) with (wr_string s). rewrite rd_string_enc by exact Hs. cbn [obnd].
+  destruct k as [u lp cs tg cn cnn cnp ts tsn pn pnn ps psn [[[a b] c] e]]. cbn [DS d_table_mode mode_get k_md md0] in *.
+  cbn [k_cn k_cnn] in Hl.
+  replace (negb ((a =? 0) || (a =? 1))) with false by (destruct Hmd as [-> | ->]; reflexivity).
+  ds_simpl. rewrite Hl. reflexivity.
+Qed.
+
+Lemma cstep_textstring ois m k s n : wf_str s -> n < lim26 -> (md1 (k_md k) = 0 \/ md1 (k_md k) = 2) -> lookup (k_ts k) n = None ->
+  csteps ois m k [OasisRecord_TEXTSTRING :: wr_cstring s ++ enc_uint n] m (k_add_ts k s n).
+Proof.
+  intros Hs Hn26 Hmd Hl. assert (Hn : wf_u n) by (unfold wf_u; change lim26 with 67108864 in Hn26; rewrite two64_val; lia).
+  apply csteps_one; [discriminate|]. intros rest.
+  unfold cov_record. change OasisRecord_TEXTSTRING with 6. cbn [app rd_byte obnd].
+  unfold cov_add_name, add_name. change (wr_cstring s) with (wr_string s). rewrite <- app_assoc. rewrite rd_string_enc by exact Hs. cbn [obnd].
+  destruct k as [u lp cs tg cn cnn cnp ts tsn pn pnn ps psn [[[a b] c] e]]. cbn [DS d_table_mode mode_get k_md md1] in *.
+  cbn [k_ts] in Hl.
+  replace (negb ((b =? 0) || (b =? 2))) with false by (destruct Hmd as [-> | ->]; reflexivity).
+  rewrite rd_uint_enc by exact Hn. ds_simpl. rewrite Hl. cbn [obnd].
+  replace (n <? lim26) with true by (symmetry; apply N.ltb_lt; exact Hn26). reflexivity.
+Qed.
+
+Lemma cstep_propname ois m k s n : wf_str s -> n < lim26 -> (md2 (k_md k) = 0 \/ md2 (k_md k) = 2) -> lookup (k_pn k) n = None ->
+  csteps ois m k [OasisRecord_PROPNAME :: wr_cstring s ++ enc_uint n] m (k_add_pn k s n).
+Proof.
+  intros Hs Hn26 Hmd Hl. assert (Hn : wf_u n) by (unfold wf_u; change lim26 with 67108864 in Hn26; rewrite two64_val; lia).
+  apply csteps_one; [discriminate|]. intros rest.
+  unfold cov_record. change OasisRecord_PROPNAME with 8. cbn [app rd_byte obnd].
+  unfold cov_add_name, add_name. change (wr_cstring s) with (wr_string s). rewrite <- app_assoc. rewrite rd_string_enc by exact Hs. cbn [obnd].
+  destruct k as [u lp cs tg cn cnn cnp ts tsn pn pnn ps psn [[[a b] c] e]]. cbn [DS d_table_mode mode_get k_md md2] in *.
+  cbn [k_pn] in Hl.
+  replace (negb ((c =? 0) || (c =? 2))) with false by (destruct Hmd as [-> | ->]; reflexivity).
+  rewrite rd_uint_enc by exact Hn. ds_simpl. rewrite Hl. cbn [obnd].
+  replace (n <? lim26) with true by (symmetry; apply N.ltb_lt; exact Hn26). reflexivity.
+Qed.
+
+Lemma cstep_propstring ois m k s : wf_str s -> (md3 (k_md k) = 0 \/ md3 (k_md k) = 1) -> lookup (k_ps k) (k_psn k) = None ->
+  csteps ois m k [OasisRecord_PROPSTRING_IMPLICIT :: wr_cstring s] m (k_add_ps k s).
+Proof.
+  intros Hs Hmd Hl. apply csteps_one; [discriminate|]. intros rest.
+  unfold cov_record. change OasisRecord_PROPSTRING_IMPLICIT with 9. cbn [app rd_byte obnd].
+  unfold cov_add_name, add_name. change (wr_cstring s) with (wr_string s). rewrite rd_string_enc by exact Hs. cbn [obnd].
+  destruct k as [u lp cs tg cn cnn cnp ts tsn pn pnn ps psn [[[a b] c] e]]. cbn [DS d_table_mode mode_get k_md md3] in *.
+  cbn [k_ps k_psn] in Hl.
+  replace (negb ((e =? 0) || (e =? 1))) with false by (destruct Hmd as [-> | ->]; reflexivity).
+  ds_simpl. rewrite Hl. reflexivity.
+Qed.
+
+(* ---- the name-table phases (as in OasisWriteProofs.v; explicit reference numbers below 2^26) *)
+Lemma csteps_cellnames ois cfg cells offs : forall l st recs pds st',
+  cellnames_to_oas cfg cells offs st l = (recs, pds, st') ->
+  Forall (fun c => wf_str (cl_name c)) l -> Forall (Forall wf_nprop) pds ->
+  forall m k s, m_abs m = true -> (md0 (k_md k) = 0 \/ md0 (k_md k) = 1) -> k_cnn k = N.of_nat s ->
+    (forall j, N.of_nat s <= j -> lookup (k_cn k) j = None) ->
+    exists m', csteps ois m k recs m' (k_after_cellnames k s (map cl_name l) pds) /\ m_abs m' = true.
+Proof.
+  induction l as [|c t IH]; intros st recs pds st' E Hn Hp m k s Ha Hmd Hcnn Hlk.
+  - injection E as <- <- <-. exists m. split; [|exact Ha]. unfold k_after_cellnames. cbn [map enum_from rev app cnp_list length].
+    rewrite Nat.add_0_r, <- Hcnn. destruct k; constructor.
+  - cbn [cellnames_to_oas] in E.
+    pose proof (properties_to_oas_enc (cellname_props cfg c (cell_offset_of cells offs (cl_name c))) st) as Hpr.
+    destruct (properties_to_oas st (cellname_props cfg c (cell_offset_of cells offs (cl_name c)))) as [[pr pd] st1].
+    cbn [fst snd] in Hpr. subst pr.
+    destruct (cellnames_to_oas cfg cells offs st1 t) as [[r2 d2] st2] eqn:E2.
+    injection E as <- <- <-. inversion Hn as [|? ? Hc Ht]; subst. inversion Hp as [|? ? Hp1 Hp2]; subst.
+    pose proof (cstep_cellname ois m k (cl_name c) Hc Hmd ltac:(apply Hlk; rewrite Hcnn; lia)) as S1.
+    destruct (csteps_props_cellname ois (k_cnn k) pd m (k_add_cn k (cl_name c)) Hp1 eq_refl Ha) as (m1 & S2 & A1).
+    set (k1 := k_set_cnp (k_add_cn k (cl_name c)) (rev (map (fun p => (k_cnn k, p)) pd) ++ k_cnp (k_add_cn k (cl_name c)))) in *.
+    destruct (IH st1 r2 d2 st2 E2 Ht Hp2 m1 k1 (S s) A1) as (m2 & S3 & A2).
+    + subst k1. destruct k as [? ? ? ? ? ? ? ? ? ? ? ? ? [[[a b] c0] e]]. cbn. right. reflexivity.
+    + subst k1. cbn [k_set_cnp k_add_cn k_cnn]. rewrite Hcnn. lia.
+    + intros j Hj. subst k1. cbn [k_set_cnp k_add_cn k_cn lookup]. rewrite Hcnn.
+      replace (N.of_nat s =? j) with false by (symmetry; apply N.eqb_neq; lia). apply Hlk. lia.
+    + exists m2. split; [|exact A2].
+      change ((OasisRecord_CELLNAME_IMPLICIT :: wr_cstring (cl_name c)) :: map enc_prop_g pd ++ r2)
+        with ([OasisRecord_CELLNAME_IMPLICIT :: wr_cstring (cl_name c)] ++ map enc_prop_g pd ++ r2).
+      eapply csteps_app; [exact S1|]. eapply csteps_app; [exact S2|].
+      replace (k_after_cellnames k s (map cl_name (c :: t)) (pd :: d2)) with (k_after_cellnames k1 (S s) (map cl_name t) d2);
+        [exact S3|].
+      subst k1. unfold k_after_cellnames. cbn [map enum_from rev cnp_list length k_set_cnp k_add_cn k_unit k_lprops k_cells
+        k_target k_cn k_cnn k_cnp k_ts k_tsn k_pn k_pnn k_ps k_psn k_md swap_kv fst snd].
+      rewrite Hcnn.
+      assert (Emd : mode_set (mode_set (k_md k) 0 1) 0 1 = mode_set (k_md k) 0 1)
+        by (destruct (k_md k) as [[[a b] c0] e]; reflexivity).
+      f_equal.
+      * destruct (map cl_name t) eqn:Et; [cbn [length]; f_equal; f_equal; lia|cbn [length]; f_equal; f_equal; lia].
+      * rewrite <- app_assoc. reflexivity.
+      * f_equal. lia.
+      * rewrite rev_app_distr, <- app_assoc. reflexivity.
+      * destruct (map cl_name t); [reflexivity|exact Emd].
+Qed.
+Lemma csteps_textstrings ois : forall items m k,
+  (md1 (k_md k) = 0 \/ md1 (k_md k) = 2) -> NoDup (map snd items) ->
+  (forall kv, In kv items -> wf_str (fst kv) /\ snd kv < lim26 /\ lookup (k_ts k) (snd kv) = None) ->
+  csteps ois m k (numbered_name_records OasisRecord_TEXTSTRING items) m (k_after_ts k items).
+Proof.
+  induction items as [|[s n] t IH]; intros m k Hmd Hnd Hit; [constructor|].
+  cbn [numbered_name_records map fst snd].
+  destruct (Hit (s, n) (or_introl eq_refl)) as (Hs & Hn & Hl). cbn [fst snd] in *.
+  change ((OasisRecord_TEXTSTRING :: wr_cstring s ++ enc_uint n) :: map (fun kv => OasisRecord_TEXTSTRING :: wr_cstring (fst kv) ++ enc_uint (snd kv)) t)
+    with ([OasisRecord_TEXTSTRING :: wr_cstring s ++ enc_uint n] ++ numbered_name_records OasisRecord_TEXTSTRING t).
+  eapply csteps_app; [apply (cstep_textstring ois m k s n Hs Hn Hmd Hl)|].
+  inversion Hnd as [|? ? Hnin Hnd']; subst.
+  replace (k_after_ts k ((s, n) :: t)) with (k_after_ts (k_add_ts k s n) t).
+  - apply IH; [destruct k as [? ? ? ? ? ? ? ? ? ? ? ? ? [[[a b] c0] e]]; cbn; right; reflexivity|exact Hnd'|].
+    intros kv Hin. destruct (Hit kv (or_intror Hin)) as (A & B & C). split; [exact A|]. split; [exact B|].
+    cbn [k_add_ts k_ts lookup]. replace (n =? snd kv) with false; [exact C|]. symmetry. apply N.eqb_neq. intros ->.
+    apply Hnin. apply in_map. exact Hin.
+  - unfold k_after_ts. destruct t as [|kv t']; cbn [k_add_ts map rev length k_unit k_lprops k_cells k_target k_cn k_cnn k_cnp
+      k_ts k_tsn k_pn k_pnn k_ps k_psn k_md swap_kv fst snd app]; [reflexivity|].
+    assert (Emd : mode_set (mode_set (k_md k) 1 2) 1 2 = mode_set (k_md k) 1 2)
+      by (destruct (k_md k) as [[[a b] c0] e]; reflexivity).
+    rewrite Emd. f_equal; [rewrite <- !app_assoc; reflexivity|lia].
+Qed.
+Lemma csteps_propnames ois : forall items m k,
+  (md2 (k_md k) = 0 \/ md2 (k_md k) = 2) -> NoDup (map snd items) ->
+  (forall kv, In kv items -> wf_str (fst kv) /\ snd kv < lim26 /\ lookup (k_pn k) (snd kv) = None) ->
+  csteps ois m k (numbered_name_records OasisRecord_PROPNAME items) m (k_after_pn k items).
+Proof.
+  induction items as [|[s n] t IH]; intros m k Hmd Hnd Hit; [constructor|].
+  cbn [numbered_name_records map fst snd].
+  destruct (Hit (s, n) (or_introl eq_refl)) as (Hs & Hn & Hl). cbn [fst snd] in *.
+  change ((OasisRecord_PROPNAME :: wr_cstring s ++ enc_uint n) :: map (fun kv => OasisRecord_PROPNAME :: wr_cstring (fst kv) ++ enc_uint (snd kv)) t)
+    with ([OasisRecord_PROPNAME :: wr_cstring s ++ enc_uint n] ++ numbered_name_records OasisRecord_PROPNAME t).
+  eapply csteps_app; [apply (cstep_propname ois m k s n Hs Hn Hmd Hl)|].
+  inversion Hnd as [|? ? Hnin Hnd']; subst.
+  replace (k_after_pn k ((s, n) :: t)) with (k_after_pn (k_add_pn k s n) t).
+  - apply IH; [destruct k as [? ? ? ? ? ? ? ? ? ? ? ? ? [[[a b] c0] e]]; cbn; right; reflexivity|exact Hnd'|].
+    intros kv Hin. destruct (Hit kv (or_intror Hin)) as (A & B & C). split; [exact A|]. split; [exact B|].
+    cbn [k_add_pn k_pn lookup]. replace (n =? snd kv) with false; [exact C|]. symmetry. apply N.eqb_neq. intros ->.
+    apply Hnin. apply in_map. exact Hin.
+  - unfold k_after_pn. destruct t as [|kv t']; cbn [k_add_pn map rev length k_unit k_lprops k_cells k_target k_cn k_cnn k_cnp
+      k_ts k_tsn k_pn k_pnn k_ps k_psn k_md swap_kv fst snd app]; [reflexivity|].
+    assert (Emd : mode_set (mode_set (k_md k) 2 2) 2 2 = mode_set (k_md k) 2 2)
+      by (destruct (k_md k) as [[[a b] c0] e]; reflexivity).
+    rewrite Emd. f_equal; [rewrite <- !app_assoc; reflexivity|lia].
+Qed.
+Lemma csteps_propstrings ois : forall vals m k s,
+  (md3 (k_md k) = 0 \/ md3 (k_md k) = 1) -> k_psn k = N.of_nat s -> Forall wf_str vals ->
+  (forall j, N.of_nat s <= j -> lookup (k_ps k) j = None) ->
+  csteps ois m k (propstring_records vals) m (k_after_ps k s vals).
+Proof.
+  induction vals as [|v t IH]; intros m k s Hmd Hpsn Hv Hlk; [constructor|].
+  cbn [propstring_records map]. inversion Hv as [|? ? Hv1 Hv2]; subst.
+  change ((OasisRecord_PROPSTRING_IMPLICIT :: wr_cstring v) :: map (fun s0 => OasisRecord_PROPSTRING_IMPLICIT :: wr_cstring s0) t)
+    with ([OasisRecord_PROPSTRING_IMPLICIT :: wr_cstring v] ++ propstring_records t).
+  eapply csteps_app; [apply (cstep_propstring ois m k v Hv1 Hmd); apply Hlk; rewrite Hpsn; lia|].
+  replace (k_after_ps k s (v :: t)) with (k_after_ps (k_add_ps k v) (S s) t).
+  - apply IH; [destruct k as [? ? ? ? ? ? ? ? ? ? ? ? ? [[[a b] c0] e]]; cbn; right; reflexivity| |exact Hv2|].
+    + cbn [k_add_ps k_psn]. rewrite Hpsn. lia.
+    + intros j Hj. cbn [k_add_ps k_ps lookup]. rewrite Hpsn.
+      replace (N.of_nat s =? j) with false by (symmetry; apply N.eqb_neq; lia). apply Hlk. lia.
+  - unfold k_after_ps. destruct t as [|v' t']; cbn [k_add_ps map rev length enum_from k_unit k_lprops k_cells k_target k_cn
+      k_cnn k_cnp k_ts k_tsn k_pn k_pnn k_ps k_psn k_md swap_kv fst snd app]; rewrite ?Hpsn.
+    + unfold k_add_ps. rewrite Hpsn. cbn [swap_kv fst snd]. f_equal. lia.
+    + assert (Emd : mode_set (mode_set (k_md k) 3 1) 3 1 = mode_set (k_md k) 3 1)
+        by (destruct (k_md k) as [[[a b] c0] e]; reflexivity).
+      rewrite Emd. f_equal; [rewrite <- !app_assoc; reflexivity|lia].
+Qed.
+
+(* ================================================================== the statement *)
+Definition wcell_small (c : wcell) : Prop :=
+  Forall wpoly_small (cl_polys c) /\ Forall wpath_small (cl_paths c) /\ Forall wref_small (cl_refs c) /\
+  Forall wlabel_small (cl_labels c).
+
+(* what the reader needs beyond wlib_ok (guards c2, c3 of OasisRead.v): layers, datatypes, text layers and text types
+   below 2^32 (gdstk's Tag holds two 32-bit halves, so every library gdstk can hold satisfies this); at most 2^31
+   vertices per polygon / path, repetition dimensions and explicit-list lengths below 2^31; and fewer than 2^26 distinct
+   label texts and fewer than 2^26 distinct property names (the TEXTSTRING and PROPNAME records carry explicit reference
+   numbers, which the reader accepts below 2^26) *)
+Definition wlib_small (l : wlib) : Prop :=
+  Forall wcell_small (li_cells l) /\
+  forall cfg, nm_count (run_ts (write_oas_run cfg l)) <= lim26 /\ nm_count (ps_names (run_ps (write_oas_run cfg l))) <= lim26.
+
+Lemma wcell_oks_intro c : wcell_okp c -> wcell_small c -> wcell_oks c.
+Proof.
+  intros (_ & H1 & H2 & H3 & H4 & _) (S1 & S2 & S3 & S4). unfold wcell_oks.
+  split; [exact (Forall_conj _ _ _ (Forall_proj1 _ _ _ H1) S1)|]. split; [exact (Forall_conj _ _ _ (Forall_proj1 _ _ _ H2) S2)|].
+  split; [exact (Forall_conj _ _ _ (Forall_proj1 _ _ _ H3) S3)|exact (Forall_conj _ _ _ (Forall_proj1 _ _ _ H4) S4)].
+Qed.
+
+Lemma Forall2_in_l {A B} (P : A -> B -> Prop) l1 l2 a : Forall2 P l1 l2 -> In a l1 -> exists b, In b l2 /\ P a b.
+Proof.
+  induction 1 as [|x y l1 l2 H1 H2 IH]; intros Hin; [destruct Hin|]. destruct Hin as [<-|Hin].
+  - exists y. split; [left; reflexivity|exact H1].
+  - destruct (IH Hin) as (b & Hb & Pb). exists b. split; [right; exact Hb|exact Pb].
+Qed.
+
+Lemma cells_res_nodup KF VF TF CN gcs l : cells_res KF VF TF CN gcs l -> NoDup (map cl_name l) -> NoDup (map c_name gcs).
+Proof.
+  intros H. induction H as [|gc c gcs cs H1 H2 IH]; intros Hnd; [constructor|].
+  cbn [map] in *. inversion Hnd as [|? ? Hnin Hnd']; subst. constructor; [|apply IH; exact Hnd'].
+  intros Hin. apply in_map_iff in Hin. destruct Hin as (gc' & En & Hin').
+  destruct (Forall2_in_l _ _ _ gc' H2 Hin') as (c' & Hc' & (i' & Hi' & Hn' & _)).
+  destruct H1 as (i & Hi & Hn & _). rewrite Hn, Hn' in En. injection En as ->.
+  apply Hnin. apply in_map_iff. exists c'. split; [|exact Hc'].
+  pose proof (cell_index_some CN _ _ Hi) as A. pose proof (cell_index_some CN _ _ Hi') as B. congruence.
+Qed.
+
+Lemma omap_total {A B} (f : A -> option B) l : (forall a, In a l -> exists b, f a = Some b) -> exists l', omap f l = Some l'.
+Proof.
+  induction l as [|a t IH]; intros H; [exists []; reflexivity|].
+  destruct (H a (or_introl eq_refl)) as (b & Eb). destruct (IH (fun x Hx => H x (or_intror Hx))) as (t' & Et).
+  exists (b :: t'). cbn [omap]. rewrite Eb. cbn [obnd]. rewrite Et. reflexivity.
+Qed.
+Lemma cnp_list_in pds : forall s kp, In kp (cnp_list s pds) -> exists pd, In pd pds /\ In (snd kp) pd.
+Proof.
+  induction pds as [|pd t IH]; intros s kp Hin; [destruct Hin|]. cbn [cnp_list] in Hin. apply in_app_or in Hin.
+  destruct Hin as [Hin|Hin].
+  - apply in_map_iff in Hin. destruct Hin as (p & <- & Hp). exists pd. split; [left; reflexivity|exact Hp].
+  - destruct (IH _ _ Hin) as (pd' & H1 & H2). exists pd'. split; [right; exact H1|exact H2].
+Qed.
